@@ -247,7 +247,88 @@ theorem error_only_when_forced {X : Type} (valid : Bytes → Bool) (i : Inputs X
     rw [hc] at h
     cases h
 
+/-! ## M5 — plan, store and descriptor as raw file-system state -/
+
+/-- **M5a.** "The buildpack plan …, the parsed buildpack descriptor …, the previous store if present; … a value that cannot be
+represented is a reported error, never silently dropped": whenever a document the phase reads is there but cannot be turned into
+its value — for **every** byte string that is not a `String` (not valid UTF-8, whatever `valid` is) or that the decoder rejects
+(`undecodable b`, all `b`), for a directory or anything else unreadable at the path, and for a missing descriptor / plan — no context
+is produced: the run ends in a reported error, whatever else was supplied (every platform directory, every target combination,
+both phases). In particular a `store.toml` that is present is never treated as "no previous store". -/
+theorem unrepresentable_document_is_reported {X : Type} (valid : Bytes → Bool) (build : Bool) (i : Inputs X) (which : String)
+    (h : badDoc build i.docs = some which) : ∃ e, assembleDocs valid build i = .error e := by
+  unfold assembleDocs
+  cases hd : i.docs.desc.readError valid with
+  | some e => exact ⟨_, rfl⟩
+  | none =>
+    have hdesc := readError_none valid _ hd
+    cases hp : readPlatformEnv valid i.plat with
+    | error e => exact ⟨_, rfl⟩
+    | ok env =>
+      cases build with
+      | false => simp [badDoc, hdesc, docBad] at h
+      | true =>
+        cases hpl : i.docs.plan.readError valid with
+        | some e => exact ⟨_, rfl⟩
+        | none =>
+          have hplan := readError_none valid _ hpl
+          cases hs : i.docs.store.readError valid with
+          | none =>
+            have hstore := readError_none valid _ hs
+            simp [badDoc, hdesc, hplan, hstore, docBad] at h
+          | some e =>
+            cases e with
+            | ioNotFound =>
+              have hstore := readError_notFound valid _ hs
+              simp [badDoc, hdesc, hplan, hstore, docBad] at h
+            | ioOther => exact ⟨_, rfl⟩
+            | tomlDe => exact ⟨_, rfl⟩
+
+/-- **M5a'.** … and the error names the document: with the platform directory readable, an unrepresentable `store.toml` behind a
+readable descriptor and plan is reported as `CannotReadStore` (the seeded `.ok()` on the read turns exactly this into a context). -/
+theorem unrepresentable_store_is_reported {X : Type} (valid : Bytes → Bool) (i : Inputs X) (env : PEnv)
+    (hdesc : i.docs.desc = .asGiven) (hplan : i.docs.plan = .asGiven) (hp : readPlatformEnv valid i.plat = .ok env)
+    (h : docBad true i.docs.store = true) : assembleDocs valid true i = .error .store := by
+  unfold assembleDocs
+  simp only [hdesc, hplan, hp, Doc.readError, if_true]
+  cases hs : i.docs.store with
+  | asGiven => simp [hs, docBad] at h
+  | missing => simp [hs, docBad] at h
+  | unreadable => rfl
+  | undecodable b => cases hv : valid b <;> simp [hv]
+
+/-- **M5b.** "A missing … store.toml [is] tolerated": nothing at the path is "no previous store", and nothing else changes. -/
+theorem missing_store_is_no_store {X : Type} (valid : Bytes → Bool) (i : Inputs X)
+    (hdesc : i.docs.desc = .asGiven) (hplan : i.docs.plan = .asGiven) (hs : i.docs.store = .missing) :
+    assembleDocs valid true i = assemble valid { i with store := none } := by
+  unfold assembleDocs
+  simp only [hdesc, hplan, hs, Doc.readError, if_true]
+  cases hp : readPlatformEnv valid i.plat with
+  | error e => simp [assemble, hp]
+  | ok env => rfl
+
+/-- **M5c.** With the three documents readable and decoded the raw states add nothing: the assembly is the one all other theorems
+speak about. -/
+theorem documents_as_given {X : Type} (valid : Bytes → Bool) (build : Bool) (i : Inputs X) (h : i.docs = {}) :
+    assembleDocs valid build i = assemble valid i := by
+  unfold assembleDocs
+  simp only [h, Doc.readError]
+  cases hp : readPlatformEnv valid i.plat with
+  | error e => simp [assemble, hp]
+  | ok env => cases build <;> rfl
+
 /-! ## Non-vacuity -/
+
+/-- a build whose `store.toml` holds `[metadata]\nowner = "Ren\xE9"\n`-like bytes (here: `o = "` E9 `"`), everything else in order -/
+def latin1Store : Inputs Unit :=
+  { d7Witness with vars := { d7Witness.vars with variant := .unset }, layersDir := some [108], plan := some (), store := some (),
+                   docs := { store := .undecodable [111, 32, 61, 32, 34, 233, 34] } }
+
+example : badDoc true latin1Store.docs = some "store.toml" := by decide
+example : assembleDocs utf8Valid true latin1Store = .error .store := by rfl
+example : ∃ c, assembleDocs utf8Valid true { latin1Store with docs := { store := .missing } } = .ok c ∧ c.store = none := ⟨_, rfl, rfl⟩
+example : ∃ c, assembleDocs utf8Valid true { latin1Store with docs := {} } = .ok c ∧ c.store = some () := ⟨_, rfl, rfl⟩
+example : assembleDocs utf8Valid false { latin1Store with docs := { desc := .unreadable } } = .error .descriptor := by rfl
 
 /-- a listing with every kind of entry: file, directory, link to file, link to directory, dangling link -/
 def sampleListing : List (Bytes × EntryKind) :=
